@@ -1365,6 +1365,32 @@ func c12R4(p *core.Program, r *core.Report) {
 			}
 		}
 		r.Check(ok, rule, cl, "lines starting with go: are dropped", cl.Node().Pos(), "append dominated by !HasPrefix(line, \"go:\")", "comment lines are no longer filtered by the `go:` prefix test")
+		// ... and every other line is handed on as it was cut: what is appended is the loop's own line, never rewritten
+		// (a tag line is one whose first byte after blanks is a marker; a line trimmed of its tab here becomes one)
+		if app != nil {
+			rewritten := ""
+			for _, a := range app.Rhs[0].(*ast.CallExpr).Args[1:] {
+				a = ast.Unparen(a)
+				if _, isIx := a.(*ast.IndexExpr); isIx {
+					continue
+				}
+				v := core.VarOf(cinfo, a)
+				if v == nil {
+					rewritten = "`" + core.ExprStr(a) + "` is appended, not the line itself"
+					continue
+				}
+				for _, d := range core.DefsOf(cinfo, cl.Body, v) {
+					switch {
+					case d.Kind == "range-value":
+					case (d.Kind == "define" || d.Kind == "var") && d.Rhs != nil && isLineItself(cinfo, d.Rhs):
+					default:
+						rewritten = "the line is redefined by `" + core.ExprStr(d.Stmt) + "` before it is appended"
+					}
+				}
+			}
+			r.Check(rewritten == "", rule, cl, "comment lines are handed on as they were cut", app.Pos(), "what is appended is the range value of the split (or an element / the scanner's text), defined nowhere else",
+				rewritten+": what tells a tag line from prose (a marker as the first byte after blanks) is then decided on another text than the comment's - an indented `+gengo:x` quoted in a doc code block becomes a tag")
+		}
 		// every line of the group's text is a line of its own: the text is cut at each line break, without a bound on
 		// the number of pieces (one block comment is one entry of the group's list and many lines)
 		var splits []*ast.CallExpr
@@ -1393,6 +1419,18 @@ func c12R4(p *core.Program, r *core.Report) {
 			r.Check(good, rule, cl, "the comment text is cut at every line break: "+name, c.Pos(), "split on \"\\n\" without a limit", "the text of a comment group is not cut at every line break ("+core.ExprStr(c)+"): lines of a block comment stay glued together, tag lines inside are never classified")
 		}
 	}
+}
+
+// isLineItself: the expression is an element of a slice or the text of a scanner: a line as it was cut.
+func isLineItself(info *types.Info, e ast.Expr) bool {
+	e = ast.Unparen(e)
+	if _, ok := e.(*ast.IndexExpr); ok {
+		return true
+	}
+	if c, ok := e.(*ast.CallExpr); ok {
+		return core.CalleeName(info, c) == "(*bufio.Scanner).Text"
+	}
+	return false
 }
 
 // evalRuneCond evaluates a condition built from comparisons of the rune variable c with constants, for c = r.
